@@ -484,7 +484,17 @@ def usage_event(rng, eid):
             return []
         days = [es.tmin(r.date)[0] // 1440 for r in rows]
         ev["first"], ev["last"] = min(days), max(days)
-        text = ANSI.sub("", repr(sc.resource_usage))
+        o, raw = es.guarded(lambda: repr(sc.resource_usage), 8.0)
+        if o == "RuntimeError":
+            common.set_now(None)
+            return []
+        if o != "ok":                       # another exception class, or the table is never finished
+            if o == "timeout":
+                _USAGE_OFF[0] = True        # one such report is enough: no further usage tables in this run
+            ev["out"] = "usage table: %s" % o
+            common.set_now(None)
+            return [ev]
+        text = ANSI.sub("", raw)
         lines = text.split("\n")
         ev["nlines"] = len(lines)
         ev["widths"] = [len(l) for l in lines]
